@@ -38,3 +38,73 @@ Proof.
       unfold is_news in Q. cbn [fst snd] in Q. rewrite L in Q. apply N.ltb_lt in Q. lia. }
     now rewrite E.
 Qed.
+
+(** ** encoding under a size limit *)
+From ID Require Import Model.Heads.
+
+Lemma take_fitting_spec L : forall rest acc,
+  items_size acc <= L ->
+  let out := take_fitting L acc rest in
+  items_size out <= L /\
+  exists k, out = acc ++ firstn k rest /\
+            match nth_error rest k with
+            | Some nxt => L < items_size (out ++ [nxt])      (* maximal: the next head would not fit *)
+            | None => True
+            end.
+Proof.
+  induction rest as [|it rest IH]; intros acc F; cbn [take_fitting].
+  - split; auto. exists 0%nat. rewrite app_nil_r. split; [reflexivity|exact I].
+  - destruct (N.ltb_spec L (items_size (acc ++ [it]))) as [O|Fit].
+    + split; auto. exists 0%nat. cbn. rewrite app_nil_r. split; auto.
+    + destruct (IH (acc ++ [it]) Fit) as [F' [k [E M]]]. split; auto.
+      exists (S k). cbn [firstn nth_error]. split; auto. rewrite E, <- app_assoc. reflexivity.
+Qed.
+
+(** under a limit that admits at least the empty list, the encoding never exceeds the limit, keeps
+    a newest-first prefix of the heads, and that prefix is maximal *)
+Theorem encode_limit heads L :
+  items_size [] <= L ->
+  let sorted := newest_first heads in
+  let items := heads_encode_items false heads (Some L) in
+  items_size items <= L /\
+  exists k, items = firstn k sorted /\
+            match nth_error sorted k with Some nxt => L < items_size (items ++ [nxt]) | None => True end.
+Proof.
+  intros F sorted items. unfold items, heads_encode_items. fold sorted.
+  destruct (take_fitting_spec L sorted [] F) as [S [k [E M]]]. split; auto. exists k. auto.
+Qed.
+
+(** without a limit every head is encoded *)
+Theorem encode_nolimit_all heads : heads_encode_items false heads None = newest_first heads.
+Proof. reflexivity. Qed.
+
+Lemma insert_desc_In x l y : In y (insert_desc x l) <-> y = x \/ In y l.
+Proof.
+  induction l as [|z l IH]; cbn; [intuition|].
+  destruct (fst x ?= fst z) eqn:C1.
+  - destruct (snd x ?= snd z) eqn:C2.
+    + apply N.compare_eq in C1, C2. destruct x, z; cbn in *; subst. cbn. intuition.
+    + cbn. rewrite IH. intuition.
+    + cbn. intuition.
+  - cbn. rewrite IH. intuition.
+  - cbn. intuition.
+Qed.
+(** the encoded items are exactly the heads (as a set): nothing is dropped, nothing invented *)
+Theorem newest_first_In heads t a : In (t, a) (newest_first heads) <-> In (a, t) heads.
+Proof.
+  unfold newest_first.
+  assert (G : forall l acc, In (t, a) (fold_left (fun acc h => insert_desc (snd h, fst h) acc) l acc)
+                            <-> In (t, a) acc \/ In (a, t) l).
+  { induction l as [|[a0 t0] l IH]; intros acc; cbn [fold_left].
+    - cbn. tauto.
+    - rewrite IH, insert_desc_In. cbn [fst snd In]. split.
+      + intros [[E|H]|H]; auto. inversion E; subst. auto.
+      + intros [H|[E|H]]; auto. inversion E; subst. auto. }
+  rewrite G. cbn. tauto.
+Qed.
+
+(** sensitivity: re-keying by timestamp (the pinned tree) loses an author even without a limit *)
+Example encode_distinct_ts_refuted :
+  let heads := [(2, 7); (3, 7)] in
+  heads_encode_items true heads None = [(7, 3)] /\ heads_encode_items false heads None = [(7, 3); (7, 2)].
+Proof. vm_compute. auto. Qed.
